@@ -162,4 +162,18 @@ theorem generated_expand_chain_consistent {src : Bytes} (bs : List Span) (a : Sp
     rw [this]
   rw [h2]; exact expand_chain_consistent bs a ha h
 
+/-- **eoi_at_end** (finding F13, fixed).  With the assignments found in parser.rs `eoi()` on this run,
+the "unexpected end of input" span is the zero-width point at the END of the last token: byte range,
+line and column all sit there (before the fix the byte range stayed on the token while line/column
+moved). -/
+theorem eoi_at_end (cur : Span) :
+    (eoiSpan cur).rangeStart = cur.rangeEnd ∧ (eoiSpan cur).rangeEnd = cur.rangeEnd ∧
+    (eoiSpan cur).startLine = cur.endLine ∧ (eoiSpan cur).startCol = cur.endCol ∧
+    (eoiSpan cur).endLine = cur.endLine ∧ (eoiSpan cur).endCol = cur.endCol := by
+  have h1 : Generated.eoiMovesLine = true := by decide
+  have h2 : Generated.eoiMovesCol = true := by decide
+  have h3 : Generated.eoiCollapsesRange = true := by decide
+  unfold eoiSpan
+  simp [h1, h2, h3]
+
 end Tera.C12
